@@ -37,12 +37,12 @@ SPEC = dict(
              args={"iters": {"quick": 150, "thorough": 400}},
              require_stats=["evaluations_T2", "evaluations_T16", "hook_hits_tokenizer.conv_char2string",
                             "scenarios_expected_ok", "scenarios_expected_throw"],
-             forbid_stats=["selfcheck_sequential_not_deterministic"], timeout={"quick": 150, "thorough": 900}),
+             forbid_stats=["selfcheck_sequential_not_deterministic"], timeout={"quick": 1200, "thorough": 3600}),
         dict(name="corrupt", flavour="asan", eval_stat="evaluations",
              cases={"quick": 96, "thorough": 1440}, workers={"quick": 4, "thorough": 6},
              args={"iters": {"quick": 60, "thorough": 150}},
              require_stats=["evaluations_T2", "evaluations_T16", "hook_hits_tokenizer.conv_char2string", "hook_window_overlaps"],
-             forbid_stats=["selfcheck_sequential_not_deterministic"], timeout={"quick": 150, "thorough": 900}),
+             forbid_stats=["selfcheck_sequential_not_deterministic"], timeout={"quick": 1200, "thorough": 3600}),
     ],
 )
 
